@@ -45,6 +45,48 @@ def run(ck, facts):
         for _, leaves in srcs:
             ok1 = ok1 and any(l[0] == "call" and l[1].endswith("RenameAttr::apply") for l in leaves)
     ck.expect(ok1 and len(srcs) == 1, "R1", "Method::from_syn/scheme", detail, "method symbol is not abi_rename.apply(\"{Type}_{method}\"): %s" % detail, C.loc(f))
+
+    def own_attrs_rule(fn_, adt_sfx, label):
+        """the rename pattern applied to an item's symbol is the one of the item's OWN (merged) attributes -- the value stored in its `attrs` field --
+        not the parent's it was cloned from: an abi_rename written on the item itself takes effect"""
+        holders = []
+        for n_ in C.walk(C.fn_body(fn_)):
+            if n_.get("k") == "struct" and (n_.get("adt") or "").endswith(adt_sfx):
+                for fl in n_["fields"]:
+                    if fl["n"] == "attrs":
+                        e_ = C.strip(fl["e"])
+                        holders.append(e_.get("id") if e_.get("k") == "local" else None)
+        used = []
+        for n_ in C.walk(C.fn_body(fn_)):
+            if n_.get("k") == "mcall" and n_.get("m") == "apply":
+                r_ = C.strip(n_["recv"])
+                if r_.get("k") == "field" and r_.get("n") == "abi_rename":
+                    b_ = C.strip(r_["e"])
+                    used.append((b_.get("id") if b_.get("k") == "local" else None, b_.get("n")))
+            if n_.get("k") in ("call", "mcall") and (C.callee(n_) or "").endswith("OpaqueType::dtor_abi_name"):
+                for a_ in n_.get("a", []):
+                    a0 = C.strip(a_)
+                    if a0.get("k") == "local" and "Attrs" in (a0.get("ty") or "Attrs") and a0.get("n", "").endswith("attrs"):
+                        used.append((a0.get("id"), a0.get("n")))
+        ok_ = bool(holders) and bool(used) and all(h is not None for h in holders) and all(u in holders for u, _ in used)
+        ck.expect(ok_, "R1", label + "/rename-of-own-attrs", "renamed with the attrs stored in the item", "%s renames the symbol with `%s.abi_rename`, which is not the attribute set stored in the item (%d holders): an "
+                  "#[diplomat::abi_rename] written on the item itself is ignored for its exported name" % (label, [n for _, n in used], len(holders)), C.loc(fn_))
+    own_attrs_rule(core.fn("ast::methods::Method::from_syn"), "ast::methods::Method", "Method::from_syn")
+    for ctor in ("ast::opaque::OpaqueType::new_struct", "ast::opaque::OpaqueType::new_enum"):
+        own_attrs_rule(core.fn(ctor), "OpaqueType", ctor.split("::")[-1])
+    # every kind of attribute is recorded unconditionally by Attrs::add_attr (a closer abi_rename overrides the inherited one through RenameAttr::extend, not by being dropped)
+    aa = core.fn("ast::attrs::Attrs::add_attr")
+    nrec = 0
+    for n_, st_ in C.with_conditions(C.fn_body(aa)):
+        if n_.get("k") == "mcall" and n_.get("m") in ("push", "extend") and any(x.get("k") == "local" and x.get("n") == "self" for x in C.walk(n_["recv"])):
+            nrec += 1
+            conds_ = [k_ for k_, _, _ in st_ if k_ == "if"]
+            fld_ = next((x.get("n") for x in C.walk(n_["recv"]) if x.get("k") == "field"), "?")
+            ck.expect(not conds_, "R4", "ast::Attrs::add_attr/%s-unconditional" % fld_, "recorded for every occurrence",
+                      "Attrs::add_attr records `%s` only under a condition: an attribute written on an item is dropped when the inherited set already has one (a closer "
+                      "#[diplomat::abi_rename] no longer overrides the module's)" % fld_, C.loc(aa, n_.get("ln")))
+    if nrec < 4:
+        ck.bad("R4", "ast::Attrs::add_attr/floor", "only %d recording calls found in Attrs::add_attr (4 counted: cfg, attrs, abi_rename, demo_attrs)" % nrec, C.loc(aa))
     f = core.fn("ast::opaque::OpaqueType::dtor_abi_name")
     defs = flow.defs_of(f)
     applies = [n for n in C.walk(C.fn_body(f)) if n.get("k") == "mcall" and n.get("m") == "apply"]
